@@ -86,7 +86,14 @@ def gen_cases(rng, n, tier):
 def corpus():
     cfg = dict(shape='blog', strategy='validity', twin=False)
     base = [['add', 0, 1, {'a': 1, 'x': 9}], ['add', 1, 1, {'a': 0}], ['commit']]
-    return [dict(cfg=cfg, prog=base + [['set', 0, 1, {'a': 2}], ['commit']], fixed_target=[0, 1, 'first', []], again=True),
+    return [dict(cfg=cfg, prog=[['add', 0, 1, {'a': 1}], ['add', 1, 1, {'a': 1}], ['tagto', 1, 1], ['commit'],
+                                ['set', 0, 1, {'a': 2}], ['commit'], ['set', 1, 1, {'a': 0}], ['commit'],
+                                ['set', 0, 1, {'a': 0}], ['commit']],
+                 fixed_target=[0, 1, 'second', ['tags', 'tags.article']]),
+            dict(cfg=cfg, prog=[['add', 0, 1, {'a': 1}], ['add', 2, 1, {'a': 1}], ['link', 1, 1], ['commit'],
+                                ['set', 0, 1, {'a': 2}], ['commit']],
+                 fixed_target=[0, 1, 'first', ['labels', 'labels.articles']]),
+            dict(cfg=cfg, prog=base + [['set', 0, 1, {'a': 2}], ['commit']], fixed_target=[0, 1, 'first', []], again=True),
             dict(cfg=cfg, prog=base + [['del', 0, 1], ['commit']], fixed_target=[0, 1, 'del', []]),
             dict(cfg=cfg, prog=base, fixed_target=[1, 1, 'first', ['article']]),
             dict(cfg=cfg, prog=base + [['tagto', 1, 1], ['commit'], ['add', 1, 2, {'a': 1}], ['tagto', 2, 1], ['commit']],
@@ -114,6 +121,10 @@ def choose_target(case, snap):
             if not dels:
                 return None
             r = dels[0]
+        elif which == 'second':
+            if len(cand) < 2:
+                return None
+            r = cand[1]
         else:
             r = cand[0]
         return [tab, key, r['tx'], rels]
@@ -121,8 +132,15 @@ def choose_target(case, snap):
     r = rng.choice(rows)
     if r['tab'] == 0:
         rels = [x for x in ('tags', 'labels') if rng.random() < 0.5]
+        # dotted paths below a named relationship; both lead back to the article itself
+        if 'tags' in rels and rng.random() < 0.3:
+            rels.append('tags.article')
+        if 'labels' in rels and rng.random() < 0.3:
+            rels.append('labels.articles')
     else:
         rels = ['article'] if rng.random() < 0.5 else []
+        if rels and rng.random() < 0.3:
+            rels.append('article.tags')
     return [r['tab'], r['key'][0], r['tx'], rels]
 
 
@@ -203,11 +221,11 @@ def encode(case, obs):
     if obs.get('skipped'):
         # nothing to revert: a vacuous but well-formed case (target missing => corr/prop false is avoided by PRE)
         return ('{| c5_main := %s; c5_art := []; c5_tag := []; c5_lab := []; c5_av := []; c5_before := %s; c5_tab := 9%%nat; '
-                'c5_key := 0; c5_tx := 0; c5_tags := false; c5_labels := false; c5_article := false; c5_after := %s; '
+                'c5_key := 0; c5_tx := 0; c5_tags := false; c5_labels := false; c5_article := false; c5_deep := false; c5_after := %s; '
                 'c5_exc := false |}') % (EMPTY_MAIN, EMPTY_RL, EMPTY_RL)
     if obs.get('exc') or obs.get('before') is None:
         return ('{| c5_main := %s; c5_art := []; c5_tag := []; c5_lab := []; c5_av := []; c5_before := %s; c5_tab := 0%%nat; '
-                'c5_key := 0; c5_tx := 0; c5_tags := false; c5_labels := false; c5_article := false; c5_after := %s; '
+                'c5_key := 0; c5_tx := 0; c5_tags := false; c5_labels := false; c5_article := false; c5_deep := false; c5_after := %s; '
                 'c5_exc := true |}') % (EMPTY_MAIN, EMPTY_RL, EMPTY_RL)
     r = obs['run']
     tgt = obs['target']
@@ -215,10 +233,11 @@ def encode(case, obs):
     failed = any(o.startswith('error') for o in r['outcomes'][len(case['prog']):])
     av = glist(before['av'], lambda a: '(mklnk %s %s %s %s)' % (gZ(a['key'][0]), gZ(a['key'][1]), gZ(a['tx']), gZ(a['op'])))
     return ('{| c5_main := %s; c5_art := %s; c5_tag := %s; c5_lab := %s; c5_av := %s; c5_before := %s; c5_tab := %s; '
-            'c5_key := %s; c5_tx := %s; c5_tags := %s; c5_labels := %s; c5_article := %s; c5_after := %s; c5_exc := %s |}') % (
+            'c5_key := %s; c5_tx := %s; c5_tags := %s; c5_labels := %s; c5_article := %s; c5_deep := %s; c5_after := %s; '
+            'c5_exc := %s |}') % (
         hist.encode_case(case, r), g_vt(before, 0), g_vt(before, 1), g_vt(before, 2), av, g_rlive(before),
         gnat(tgt[0]), gZ(tgt[1]), gZ(tgt[2]), gbool('tags' in tgt[3]), gbool('labels' in tgt[3]), gbool('article' in tgt[3]),
-        g_rlive(after), gbool(failed))
+        gbool(any('.' in x for x in tgt[3])), g_rlive(after), gbool(failed))
 
 
 PRE = 'C05_pre'
